@@ -21,7 +21,7 @@ RULE = ("1-8 recording systems (mixed priorities/windows); completion point = (s
 COMPONENTS = {"real": ["ECAgent.Core.Model.complete/is_running/__bool__/execute", "ECAgent.Core.SystemManager.execute_systems",
                        "add_system/remove_system after completion"],
               "stub": ["System.execute bodies are harness recorders; the completer calls model.complete() when scripted"]}
-PROBES = ["completer_first", "completer_middle", "completer_last", "complete_outside", "complete_at_t0",
+PROBES = ["strictness_flag_truthy_but_not_the_True_singleton", "completer_first", "completer_middle", "completer_last", "complete_outside", "complete_at_t0",
           "multi_step_spans_completion", "throw_error_raised", "add_after_complete", "remove_after_complete",
           "due_system_skipped", "completer_raises_after_complete", "completed_by_member_of_a_private_system_manager", "request_from_inside_the_completing_timestep", "raising_request_inside_an_iterator", "system_bound_to_another_model", "falsy_systems", "systems_returning_values_from_execute",
           "logging_custom_logger", "logging_level_warning", "logging_disable_info", "logging_disable_critical", "logging_level_debug"]
@@ -66,7 +66,7 @@ def generate(rng, tier):
         elif r < 0.52:
             tail.append({"op": "bare"})
         elif r < 0.66:
-            tail.append({"op": "bare_throw", "via": rng.choice([None, None, None, "map", "generator"])})
+            tail.append({"op": "bare_throw", "via": rng.choice([None, None, None, "map", "generator", "one", "numpy"])})
         elif r < 0.76:
             spec = {"id": f"n{fresh}", "prio": gen_prio(rng)}
             fresh += 1
@@ -326,6 +326,11 @@ def _execute(sc, ctx):
                     yield sm.execute_systems(throw_error=True)
                 ctx.expect_raises("throw_error", ModelCompleteError, lambda: next(driver()))
                 ctx.probe("raising_request_inside_an_iterator")
+            elif via in ("one", "numpy"):
+                # the flag as it comes out of a computation: the int 1 (a count, a bool sum) or a numpy bool (arr.any())
+                import numpy
+                ctx.expect_raises("throw_error", ModelCompleteError, sm.execute_systems, throw_error=1 if via == "one" else numpy.bool_(True))
+                ctx.probe("strictness_flag_truthy_but_not_the_True_singleton")
             else:
                 ctx.expect_raises("throw_error", ModelCompleteError, sm.execute_systems, throw_error=True)
             ctx.probe("throw_error_raised")
